@@ -31,7 +31,7 @@ from ..estimation.debug_utils import checkThreeSigmaObservation
 from ..parallel.agent_propagation import PropagateExecutor, PropagateRegistration
 from ..parallel.estimate_prediction import EstPredictExecutor, EstPredictRegistration
 from ..parallel.estimate_update import EstUpdateExecutor, EstUpdateRegistration
-from ..physics.time.stardate import JulianDate, datetimeToJulianDate
+from ..physics.time.stardate import JulianDate, datetimeToJulianDate, julianDateToDatetime
 from .config.agent_config import AgentConfig, SensingAgentConfig
 
 # Type Checking Imports
@@ -275,6 +275,26 @@ class Scenario:
             for agent in agents:
                 agent_filters = agent.getFilterSteps()
                 output_data.extend(filter_step for filter_step in agent_filters)
+
+        # Rows made on steps that were not output steps refer to those steps' epochs. The clock only
+        #   pre-populates the epochs of the configured time span, so a run continued beyond it has
+        #   to add them here, like the current epoch above.
+        known_epochs = {self.clock.julian_date_epoch}
+        for row in output_data:
+            if (row_jd := getattr(row, "julian_date", None)) is None or row_jd in known_epochs:
+                continue
+            known_epochs.add(row_jd)
+            if not self.database.getData(
+                Query(Epoch).filter(Epoch.julian_date == row_jd),
+                multi=False,
+            ):
+                row_datetime = julianDateToDatetime(JulianDate(row_jd))
+                self.database.insertData(
+                    Epoch(
+                        julian_date=row_jd,
+                        timestampISO=row_datetime.isoformat(timespec="microseconds"),
+                    ),
+                )
 
         # Commit data to output DB
         self.database.bulkSave(output_data)
